@@ -127,6 +127,9 @@ func (c *Ctx) analyseBuf(rule string, fn *ssa.Function, pi int, regionIn region,
 				}
 				callee := cc.StaticCallee()
 				if callee == nil {
+					callee = c.StaticCallee(cc) // a package-level function variable assigned once (Formatter = DefaultFormatter)
+				}
+				if callee == nil {
 					for _, a := range cc.Args {
 						if reg[a] != rNone {
 							c.add("undecided", rule, fn, x.Pos(), "buffer passed to dynamic callee")
@@ -155,6 +158,10 @@ func (c *Ctx) analyseBuf(rule string, fn *ssa.Function, pi int, regionIn region,
 					}
 				}
 			case *ssa.Return:
+				// a failure return (nil bytes with a non-nil error) formats nothing
+				if n := len(x.Results); n >= 2 && isErrorType(x.Results[n-1].Type()) && !isNilConst(x.Results[n-1]) && isNilConst(x.Results[0]) {
+					continue
+				}
 				for _, r := range x.Results {
 					if _, isSlice := r.Type().Underlying().(*types.Slice); isSlice {
 						if reg[r] > retRegion {
@@ -162,6 +169,10 @@ func (c *Ctx) analyseBuf(rule string, fn *ssa.Function, pi int, regionIn region,
 						}
 						if regionIn == rPrefix && depth == 0 && reg[r] != rPrefix {
 							c.add("violated", rule, fn, x.Pos(), "returned slice is not derived from buf by append-only operations (caller's bytes lost)")
+						} else if regionIn == rPrefix && depth == 0 && !c.mustDerive(r, fn.Params[pi], 0, map[ssa.Value]bool{}) {
+							// the regions say "may hold the caller's bytes" (a union over the paths of every function on the
+							// way); on some path through a function of the module the result is built from something else
+							c.add("violated", rule, fn, x.Pos(), "on some path through the functions it calls the returned slice is not built on buf (caller's bytes lost)")
 						} else if regionIn == rPrefix && depth == 0 && dropsLeading(r, 0) {
 							c.add("violated", rule, fn, x.Pos(), "the returned slice starts behind the beginning of the caller's buffer (x[k:] with k > 0): the caller's leading bytes are lost")
 						}
@@ -229,6 +240,9 @@ func (c *Ctx) bufRegions(fn *ssa.Function, pi int, regionIn region, depth int) m
 					}
 					callee := cc.StaticCallee()
 					if callee == nil {
+						callee = c.StaticCallee(cc)
+					}
+					if callee == nil {
 						continue
 					}
 					name := origin(callee).String()
@@ -247,7 +261,16 @@ func (c *Ctx) bufRegions(fn *ssa.Function, pi int, regionIn region, depth int) m
 								continue
 							}
 							_, rr := c.analyseBufQuiet(origin(callee), ai, reg[a], depth+1)
-							if _, isSlice := x.Type().Underlying().(*types.Slice); isSlice && rr != rNone {
+							isSlice := false
+							switch t := x.Type().Underlying().(type) {
+							case *types.Slice:
+								isSlice = true
+							case *types.Tuple: // (bytes, error): the Extract of result 0 takes the call's region
+								if t.Len() > 0 {
+									_, isSlice = t.At(0).Type().Underlying().(*types.Slice)
+								}
+							}
+							if isSlice && rr != rNone {
 								set(x, rr)
 							}
 						}
@@ -280,6 +303,24 @@ func (c *Ctx) RuleAppendOnly(fns ...*ssa.Function) {
 		if len(c.Out) == before {
 			c.add("discharged", "C16.append", fn, fn.Pos(), "result derives from buf by append-only operations; no element store can touch the caller's bytes")
 		}
+	}
+}
+
+// RuleAppendOnlyAt / RuleBufIndependentAt: the same two rules for a function whose buffer is parameter pi (a method
+// taking the buffer after its receiver).
+func (c *Ctx) RuleAppendOnlyAt(fn *ssa.Function, pi int) {
+	before := len(c.Out)
+	c.analyseBuf("C16.append", fn, pi, rPrefix, 0)
+	if len(c.Out) == before {
+		c.add("discharged", "C16.append", fn, fn.Pos(), "result derives from buf by append-only operations; no element store can touch the caller's bytes")
+	}
+}
+
+func (c *Ctx) RuleBufIndependentAt(fn *ssa.Function, pi int) {
+	before := len(c.Out)
+	c.bufReads("C16.indep", fn, pi, rPrefix, 0)
+	if len(c.Out) == before {
+		c.add("discharged", "C16.indep", fn, fn.Pos(), "no read of the caller's existing bytes; len(buf) used only as a slicing bound")
 	}
 }
 
@@ -618,4 +659,93 @@ func rootGlobal(addr ssa.Value) *ssa.Global {
 		}
 	}
 	return nil
+}
+
+// mustDerive: on every path v is buf extended — buf itself, an append (built-in or append-style library call) to such
+// a value, the bytes of a bytes.Buffer created over one, or the first result of a function of the module that,
+// handed such a value, returns on every non-failure path a value built on that parameter.
+func (c *Ctx) mustDerive(v ssa.Value, buf ssa.Value, depth int, seen map[ssa.Value]bool) bool {
+	if v == buf {
+		return true
+	}
+	if seen[v] {
+		return true // a cycle through a loop phi: decided by its other edges
+	}
+	seen[v] = true
+	if depth > 6 {
+		return false
+	}
+	switch x := v.(type) {
+	case *ssa.Phi:
+		for _, ed := range x.Edges {
+			if !c.mustDerive(ed, buf, depth, seen) {
+				return false
+			}
+		}
+		return true
+	case *ssa.Slice:
+		return c.mustDerive(x.X, buf, depth, seen)
+	case *ssa.ChangeType:
+		return c.mustDerive(x.X, buf, depth, seen)
+	case *ssa.Convert:
+		return c.mustDerive(x.X, buf, depth, seen)
+	case *ssa.Extract:
+		if x.Index != 0 {
+			return false
+		}
+		return c.mustDerive(x.Tuple, buf, depth, seen)
+	case *ssa.Call:
+		cc := &x.Call
+		if b, ok := cc.Value.(*ssa.Builtin); ok {
+			return b.Name() == "append" && c.mustDerive(cc.Args[0], buf, depth, seen)
+		}
+		callee := c.StaticCallee(cc)
+		if callee == nil {
+			return false
+		}
+		name := origin(callee).String()
+		switch {
+		case name == "(*bytes.Buffer).Bytes":
+			// the buffer object: bytes.NewBuffer(x)
+			if nb, ok := cc.Args[0].(*ssa.Call); ok {
+				if f := nb.Call.StaticCallee(); f != nil && f.String() == "bytes.NewBuffer" {
+					return c.mustDerive(nb.Call.Args[0], buf, depth, seen)
+				}
+			}
+			return false
+		case appendOnly[name] && len(cc.Args) > 0:
+			return c.mustDerive(cc.Args[0], buf, depth, seen)
+		case inRepo(callee):
+			g := origin(callee)
+			for ai, a := range cc.Args {
+				if ai >= len(g.Params) {
+					break
+				}
+				if _, isSlice := a.Type().Underlying().(*types.Slice); !isSlice || !c.mustDerive(a, buf, depth, seen) {
+					continue
+				}
+				ok := true
+				n := 0
+				for _, r := range Returns(g) {
+					vals := ReturnValues(r)
+					if len(vals) == 0 {
+						ok = false
+						break
+					}
+					if k := len(vals); k >= 2 && isErrorType(vals[k-1].Type()) && !isNilConst(vals[k-1]) && isNilConst(vals[0]) {
+						continue
+					}
+					n++
+					if !c.mustDerive(vals[0], g.Params[ai], depth+1, map[ssa.Value]bool{}) {
+						ok = false
+					}
+				}
+				if ok && n > 0 {
+					return true
+				}
+			}
+			return false
+		}
+	}
+	return false
 }
